@@ -66,3 +66,12 @@ package vm
 //@     invariant forall a machine.AccountAddress, x machine.Asset :: {bal(m.Balances, a, x)} x != funding.Asset ==> bal(m.Balances, a, x) == bal(old(m.Balances), a, x)
 //@     invariant forall a machine.AccountAddress :: {has(m.Balances, a)} has(m.Balances, a) == has(old(m.Balances), a)
 //@     invariant forall a machine.AccountAddress, x machine.Asset :: {tracked(m.Balances, a, x)} tracked(old(m.Balances), a, x) ==> tracked(m.Balances, a, x)
+
+// ---- run.go ----------------------------------------------------------------------------------------
+
+//@ func (s ScriptV1) ToCore() (r Script)
+//@   property C36 C38
+//@   ensures r.Plain == s.Plain && r.Template == s.Template && r.Vars != nil
+//@   loop 1:
+//@     invariant s.Script.Vars != nil && s.Script.Plain == old(s.Script.Plain) && s.Script.Template == old(s.Script.Template)
+//@   note JSON numbers reach this code as float64 (encoding/json); amounts above 2^53 are already rounded there and int(amount) truncates: finding F7, not decided by this contract
